@@ -351,6 +351,9 @@ def run_impl(c):
             agts, _, neighbors = cinfo
             v_binvar = create_binary_variables("B", ([comp], cinfo[0]))
             orphaned_binvars.update(v_binvar)
+            if (comp, own) not in v_binvar:
+                o["flow_error"] = "agent %s is a candidate agent but not a candidate of %s" % (own, comp)
+                return o
             candidate_binvars[(comp, own)] = v_binvar[(comp, own)]
             o["constraints"].append(_constr_obs(
                 dict(ctype="hosted", comp=comp), v_binvar,
@@ -579,6 +582,8 @@ def _flow_scope_oracle(c, o):
 
 
 def _oracle(c, o, b_is_technical=False):
+    if "flow_error" in o:
+        return "repair DCOP cannot be built: " + o["flow_error"]
     if "removal" in o:
         m = _removal_oracle(c, o["removal"], b_is_technical)
         if m:
@@ -601,7 +606,7 @@ def oracle(c, o):
 def classify(c, o, msg):
     """the only listed deviation: a computation whose name starts with 'B' is 'technical' for
     Discovery.agent_computations, hence never orphaned"""
-    if c["kind"] not in ("removal", "flow"):
+    if c["kind"] not in ("removal", "flow") or "flow_error" in o:
         return None
     dep = set(c["departed"])
     if not any(comp.startswith("B") and agt in dep for comp, agt in c["host"]):
